@@ -222,17 +222,70 @@ pub fn validate_case_plans(si: &gen::SchemaInfo, text: &str, tmpdir: &str, plans
 }
 
 /// a case restricted to some rules (used by the per-rule enumerators); acyclic documents only run in-process
+/// when non-zero, the per-rule enumerators emit whole-plan cases instead (one in `FULL_MODE` documents)
+pub static FULL_MODE: std::sync::atomic::AtomicUsize = std::sync::atomic::AtomicUsize::new(0);
+static FULL_COUNT: std::sync::atomic::AtomicUsize = std::sync::atomic::AtomicUsize::new(0);
+
+/// number of selection nodes after expanding every fragment spread (acyclic documents), capped
+pub fn inlined_size(doc: &q::Document) -> usize {
+    use std::collections::HashMap;
+    let frags: HashMap<&str, &q::FragmentDefinition> = doc.definitions.iter().filter_map(|d| match d { q::Definition::Fragment(f) => Some((f.name.as_str(), f)), _ => None }).collect();
+    fn sel(ss: &q::SelectionSet, frags: &HashMap<&str, &q::FragmentDefinition>, fuel: usize, cap: usize) -> usize {
+        let mut n = 0usize;
+        for x in &ss.items {
+            n += 1;
+            if n > cap { return n; }
+            n += match x {
+                q::Selection::Field(f) => sel(&f.selection_set, frags, fuel, cap),
+                q::Selection::InlineFragment(f) => sel(&f.selection_set, frags, fuel, cap),
+                q::Selection::FragmentSpread(f) => if fuel == 0 { 0 } else { frags.get(f.fragment_name.as_str()).map(|fd| sel(&fd.selection_set, frags, fuel - 1, cap)).unwrap_or(0) },
+            };
+        }
+        n
+    }
+    let mut total = 0usize;
+    for d in &doc.definitions {
+        use graphql_tools::ast::OperationDefinitionExtension;
+        total += match d { q::Definition::Operation(o) => sel(o.selection_set(), &frags, frags.len() + 1, 5000), q::Definition::Fragment(f) => sel(&f.selection_set, &frags, frags.len() + 1, 5000) };
+    }
+    total
+}
+
+/// the executable spec of FieldsInSetCanMerge is exponential in the nesting of same-key fields: ask for it on small documents only
+pub fn spec_affordable(doc: &q::Document) -> bool {
+    let (_, depth) = size_depth(doc);
+    inlined_size(doc) <= 120 && depth <= 9
+}
+
+/// the default plan and every single-rule plan, the driver also evaluating the spec's FieldsInSetCanMerge
+pub fn accept_case(si: &gen::SchemaInfo, text: &str, tmpdir: &str, meta: serde_json::Value, out: &mut Out) {
+    let doc = match gen::parse_doc(text) { Some(d) => d, None => return };
+    let cyclic = is_cyclic(&doc);
+    let obs = if cyclic { observe_isolated(si, text, tmpdir) } else { observe(&si.doc, &doc, false) };
+    out.push(json!({"op": "validate", "src": text, "doc": enc::document(&doc), "cyclic": cyclic, "impl": obs, "mergeSpec": !cyclic && spec_affordable(&doc), "meta": meta}));
+}
+
+fn full_mode(si: &gen::SchemaInfo, text: &str, tmpdir: &str, meta: serde_json::Value, out: &mut Out) -> bool {
+    use std::sync::atomic::Ordering::Relaxed;
+    let k = FULL_MODE.load(Relaxed);
+    if k == 0 { return false; }
+    if FULL_COUNT.fetch_add(1, Relaxed) % k == 0 { accept_case(si, text, tmpdir, meta, out); }
+    true
+}
+
 /// the field-merging rule alone, the driver also evaluating the spec's FieldsInSetCanMerge (`mergeSpec`)
 pub fn merge_case(si: &gen::SchemaInfo, text: &str, tmpdir: &str, meta: serde_json::Value, out: &mut Out) {
+    if full_mode(si, text, tmpdir, meta.clone(), out) { return; }
     let doc = match gen::parse_doc(text) { Some(d) => d, None => return };
     let cyclic = is_cyclic(&doc);
     let rules = ["OverlappingFieldsCanBeMerged"];
     let obs = if cyclic { observe_isolated(si, text, tmpdir) } else { observe_rules(&si.doc, &doc, false, &rules, false) };
-    out.push(json!({"op": "validate", "src": text, "doc": enc::document(&doc), "cyclic": cyclic, "rules": rules, "impl": obs, "mergeSpec": true, "meta": meta}));
+    out.push(json!({"op": "validate", "src": text, "doc": enc::document(&doc), "cyclic": cyclic, "rules": rules, "impl": obs, "mergeSpec": !cyclic && spec_affordable(&doc), "meta": meta}));
 }
 
 /// like `rules_case`, with generator-side facts about the case (`meta`) carried along for the check
 pub fn rules_case_meta(si: &gen::SchemaInfo, text: &str, rules: &[&str], tmpdir: &str, meta: serde_json::Value, out: &mut Out) {
+    if full_mode(si, text, tmpdir, meta.clone(), out) { return; }
     let doc = match gen::parse_doc(text) { Some(d) => d, None => return };
     let cyclic = is_cyclic(&doc);
     let obs = if cyclic && rules.contains(&"OverlappingFieldsCanBeMerged") { observe_isolated(si, text, tmpdir) } else { observe_rules(&si.doc, &doc, false, rules, false) };
@@ -240,6 +293,7 @@ pub fn rules_case_meta(si: &gen::SchemaInfo, text: &str, rules: &[&str], tmpdir:
 }
 
 pub fn rules_case(si: &gen::SchemaInfo, text: &str, rules: &[&str], tmpdir: &str, out: &mut Out) {
+    if full_mode(si, text, tmpdir, json!({"family": "rule-enumerator"}), out) { return; }
     let doc = match gen::parse_doc(text) { Some(d) => d, None => return };
     let cyclic = is_cyclic(&doc);
     let obs = if cyclic && rules.contains(&"OverlappingFieldsCanBeMerged") { observe_isolated(si, text, tmpdir) } else { observe_rules(&si.doc, &doc, false, rules, false) };
